@@ -252,6 +252,52 @@ def dialect_harness(e):
     return scenario
 
 
+def user_dialect_harness(e):
+    """A mashumaro dialect given to one call (here: one that writes every int as a tagged string)
+    reaches every nested object of that call -- nodes, origins, positions, code points -- and
+    nothing afterwards."""
+    from mashumaro.dialect import Dialect
+
+    reset_all()
+    _Hook.reset()
+
+    class TaggedInts(Dialect):
+        serialization_strategy = {int: {"serialize": lambda v: f"i{v}", "deserialize": lambda s: int(str(s)[1:])}}
+
+    tno = e.choice(len(TREES), "tree")
+    root = build(TREES[tno])
+    baseline = copy.deepcopy(root.as_dict())
+    kind = e.pick(["as_dict", "to_yaml"], "call")
+    scenario: dict[str, Any] = {"tree": describe(TREES[tno]), "call": kind}
+    if kind == "as_dict":
+        out = root.as_dict(mashumaro_dialect=TaggedInts)
+    else:
+        import yaml
+
+        out = yaml.load(root.to_yaml(mashumaro_dialect=TaggedInts), Loader=yaml.SafeLoader)
+    raw = []
+
+    def walk(o, path="$"):
+        if isinstance(o, dict):
+            for k, v in o.items():
+                walk(v, f"{path}.{k}")
+        elif isinstance(o, (list, tuple)):
+            for i, v in enumerate(o):
+                walk(v, f"{path}[{i}]")
+        elif isinstance(o, int) and not isinstance(o, bool) and not path.endswith(".payload"):
+            # (VHook.payload carries its own field-level serializer, which mashumaro ranks above a dialect)
+            raw.append(path)
+
+    walk(out)
+    if raw:
+        scenario.update(ints_written_without_the_dialect=raw[:6])
+        e.fail("nested-object-ignores-option:mashumaro-dialect", scenario=scenario)
+    if not _slots_default() or root.as_dict() != baseline:
+        e.fail("later-default-call-affected", scenario=scenario)
+    e.distinct((tno, kind))
+    return scenario
+
+
 def _decided(e, b) -> bool:
     if isinstance(b, bool):
         return True
@@ -265,6 +311,7 @@ def spec(tier: str, seed: int) -> Spec:
     fams = [Family(f"{n}-calls-first-{k}-tree{t}", make_harness(n, k, later, [t]), variables=var) for k in SER + DESER for t in range(len(TREES))]
     states = ["all-registered", "cleared", "cleared-then-new-parent-with-a-registered-source"]
     fams += [Family(f"source-registry-state-{k}", make_harness(1, k, None, [0, 3], states), variables=var + "; selector: which of the tree's sources are in the source registry") for k in (SER if tier != "quick" else ["as_dict", "to_json"])]
+    fams.append(Family("user-mashumaro-dialect", user_dialect_harness, variables="selectors: tree, call"))
     fams.append(Family("msgpack-dialect-on-nested-objects", dialect_harness, variables="selectors: nesting depth, tagged / untagged input"))
     return Spec(
         families=fams,
@@ -272,7 +319,7 @@ def spec(tier: str, seed: int) -> Spec:
         bounds={"calls_per_sequence": "2 option-carrying calls (quick: the second is always as_dict with options), each followed by a default as_dict()", "trees": len(TREES), "options": "SKIP_CLASS, SORT_KEYS, SOURCE_OPTIMIZED_SERIALIZATION lazily; dialect none/explorer/test", "fault_schedule": "failure at any nested hooked object (<= 3 per tree)", "corruptions": ["unknown type tag", "missing id", "top-level list", "top-level scalar"]},
         rule="a case = one path = (tree, call sequence, value of every option bit and fault bit the real code consulted, dialect, corruption); distinct by that tuple; non-trivial = at least one option or fault consulted",
         variables="lazy booleans (options, fault schedule); selectors (call kinds, dialect, corruption, tree)",
-        assumptions=["key order is not checked for YAML output (the YAML dumper sorts keys itself)", "a custom mashumaro dialect is not varied (the three front-ends already pass their own)"],
+        assumptions=["key order is not checked for YAML output (the YAML dumper sorts keys itself)", "one custom mashumaro dialect (ints written as tagged strings) is passed to as_dict / to_yaml; the JSON / MessagePack front-ends pass their own"],
         outside=["sequences longer than 2 option-carrying calls", "faults inside deserialization hooks other than malformed input", "custom mashumaro dialects"],
     )
 
